@@ -487,6 +487,15 @@ func (e *cenv) sel(x *ESel) cval {
 	if !ok {
 		return e.fail("no field %s in %s", x.Name, T)
 	}
+	if _, isPtr := base.typ.Underlying().(*types.Pointer); !isPtr && !base.aggr && len(path) == 1 {
+		// a struct VALUE (by-value parameter or result): its fields are the
+		// projections the translation uses when the value is stored (vc.projFun)
+		st, _ := structOf(T)
+		ft := st.Field(path[0]).Type()
+		if !isAggregate(ft) {
+			return cval{t: fmt.Sprintf("(%s %s)", vc.projFun(T, path[0]), ref), typ: ft, sort: vc.sortOf(ft)}
+		}
+	}
 	for i, idx := range path {
 		a, sub := vc.fieldAddr(T, idx, ref)
 		st, _ := structOf(T)
